@@ -217,6 +217,7 @@ type shape struct {
 var (
 	two   = []string{"ready", "notready"}
 	three = []string{"ready", "notready", "stale"}
+	zero  = []string{"ready", "stale0"} // stale0: status.observedGeneration and the condition's are an explicit 0
 )
 
 func shapes(quick bool) []shape {
@@ -228,6 +229,7 @@ func shapes(quick bool) []shape {
 			{n: 2, mask: 0, classes: two, cel: true}, {n: 2, mask: 1, classes: two, cel: true},
 			{n: 2, mask: 0, classes: two, sliced: true},
 			{n: 2, mask: 0, classes: two, succ: true}, {n: 2, mask: 2, classes: two, succ: true},
+			{n: 2, mask: 0, classes: zero}, {n: 2, mask: 1, classes: zero},
 		}
 	}
 	var out []shape
@@ -249,7 +251,7 @@ func shapes(quick bool) []shape {
 	out = append(out, shape{n: 3, mask: 0b010, classes: two, cel: true})
 	out = append(out, shape{n: 2, mask: 0, classes: three, sliced: true}, shape{n: 3, mask: 0, classes: two, sliced: true}, shape{n: 2, mask: 0b10, classes: two, sliced: true})
 	for m := uint(0); m < 4; m++ {
-		out = append(out, shape{n: 2, mask: m, classes: two, succ: true})
+		out = append(out, shape{n: 2, mask: m, classes: two, succ: true}, shape{n: 2, mask: m, classes: []string{"ready", "notready", "stale0"}})
 	}
 	out = append(out, shape{n: 3, mask: 0, classes: two, succ: true}, shape{n: 2, mask: 0, classes: two, drifts: 1, succ: true})
 	return out
@@ -257,7 +259,7 @@ func shapes(quick bool) []shape {
 
 func run(o checks.Opts) *report.Report {
 	rep := report.New("C03", "bfs")
-	rep.Rule = "explicit-state BFS to closure: events = reconcile(ObjectSet), reconcile(each ObjectSetPhase), workload controller setting any existing object's status to a class of the system's alphabet (none/ready/not-ready/stale-observedGeneration), a third party editing a managed object's spec (so that PKO's own revert bumps the generation under a status that was current); one system per phase layout (2-3 phases, local/delegated mask), status alphabet, probe set and encoding (objects inline, or in ObjectSlices one of which a lagging cache may hide from a pass) (condition / fieldsEqual probes, or a CEL rule with an empty failure message), and layouts with a newer revision r2 that takes over r1's first phase while r1 keeps rolling out its later ones; monitor on every request of every ObjectSet pass"
+	rep.Rule = "explicit-state BFS to closure: events = reconcile(ObjectSet), reconcile(each ObjectSetPhase), workload controller setting any existing object's status to a class of the system's alphabet (none/ready/not-ready/stale-observedGeneration/observedGeneration 0), a third party editing a managed object's spec (so that PKO's own revert bumps the generation under a status that was current); one system per phase layout (2-3 phases, local/delegated mask), status alphabet, probe set and encoding (objects inline, or in ObjectSlices one of which a lagging cache may hide from a pass) (condition / fieldsEqual probes, or a CEL rule with an empty failure message), and layouts with a newer revision r2 that takes over r1's first phase while r1 keeps rolling out its later ones; monitor on every request of every ObjectSet pass"
 	ss := shapes(o.Quick())
 	rep.Bounds["systems"] = len(ss)
 	for i, s := range ss {
@@ -300,9 +302,9 @@ func init() {
 		},
 		Subs: []*checks.Sub{{Name: "bfs", Shards: func(t string) int {
 			if t == "thorough" {
-				return 36
+				return 46
 			}
-			return 12
+			return 16
 		}, Run: run, Replay: replay, Parallel: true},
 			{Name: "long-lived", Shards: func(t string) int {
 				if t == "thorough" {
